@@ -109,15 +109,16 @@ Fixpoint is_float_deref (t : ftype) : bool :=
   match t with TPrim KF32 | TPrim KF64 => true | TPtr t' => is_float_deref t' | _ => false end.
 
 (* no "string" option (values are never read from strings in configuration files), and no
-   range= / options= on float fields (they compare the literal's text / need decimal
-   comparison lemmas; on every other kind they are allowed) *)
+   options= on float fields (options are compared with the literal's TEXT, which the YAML and
+   TOML paths re-render); range= is allowed everywhere (ProofsE.v: a range cannot tell two
+   representations of one value apart) *)
 Definition fam_opts (t : ftype) (o : option fopts) : bool :=
   match o with
   | None => true
   | Some o' =>
     negb (o_string o') &&
     (if is_float_deref t
-     then match o_range o', o_options o' with None, [] => true | _, _ => false end
+     then match o_options o' with [] => true | _ => false end
      else true)
   end.
 
@@ -131,7 +132,7 @@ with fam_fields (fs : fields) : bool :=
   match fs with
   | FNil => true
   | FCons _ o t rest => fam_opts t o && fam_type t && fam_fields rest
-  | FEmbed opt _ inner rest => negb opt && fam_fields inner && fam_fields rest   (* non-optional embedded structs *)
+  | FEmbed _ _ inner rest => fam_fields inner && fam_fields rest   (* embedded structs: plain, optional, pointer *)
   end.
 
 (* ------------------------------------------------------------------ float literals and the kind of their position *)
